@@ -347,6 +347,11 @@ class PVLParser(object):
                         break
                     except LexerError:
                         raise
+                    except StopIteration:
+                        raise ParseError(
+                            "Ran out of tokens before the end of the "
+                            f'block "{begin} = {block_name}".'
+                        )
                     except ValueError as ve:
                         try:
                             (agg, keep_parsing) = self.parse_module_post_hook(
@@ -418,7 +423,12 @@ class PVLParser(object):
                 ValueError, f'Expecting an equals sign after "{begin}" '
             )
 
-        block_name = next(tokens)
+        try:
+            block_name = next(tokens)
+        except StopIteration:
+            raise ParseError(
+                f'Ran out of tokens after "{begin} =", expecting a Block-Name.'
+            )
         if not block_name.is_parameter_name():
             tokens.throw(
                 ValueError,
